@@ -579,7 +579,7 @@ theorem codes_perm (rs1 rs2 : List Region) (h : rs1.Perm rs2) (L : Nat) : codes 
 theorem variants_perm (ref q : List Nat) (rs1 rs2 : List Region) (inter : List Nat) (h : rs1.Perm rs2) (v : Variant) :
     v ∈ getVariantsPair ref q rs1 inter ↔ v ∈ getVariantsPair ref q rs2 inter := by
   unfold getVariantsPair
-  simp only [mem_dedupAdj, mem_sortStable, List.mem_append, List.mem_flatMap, h.mem_iff]
+  simp only [mem_dedupRun, mem_sortStable, List.mem_append, List.mem_flatMap, h.mem_iff]
 
 /-- **annotation_equiv** - for an annotation given both ways (same genes, same order; other GFF rows such as gene,
 mRNA, exon lines may be interleaved) the GFF route returns the region list of the GenBank route, stably sorted by
